@@ -633,6 +633,10 @@ def c08(tier, seed):
     cases = mt_cases(prop, "prodcons", tier, seed)
     # remote frees into a heap that its owner deletes meanwhile must not be lost either (same oracle as C10's concurrent part)
     cases += mt_cases(prop, "heapdel", tier, seed, n_baton=tier_n(tier, 300, 10000), n_par=tier_n(tier, 4, 40), n_tsan=tier_n(tier, 2, 20), start=500000)
+    # dedicated case of the recorded finding K7 (memory side of K2): blocks of a deleted TAGGED heap freed by another thread, with a tag-0 control in the same process
+    ded = seq_cases(prop, "tagged-delete-remote", ["rel", "sec"], 1, 100, seed, label_prefix="tagged-delete-remote-", start_index=90000, timeout=300)
+    for c in ded: c.meta["dedicated"] = "tagged-delete-remote"; c.meta["scenario"] = "tagged-delete-remote"
+    cases += ded
     v = Verdict(prop)
     for c in core.run_cases(cases): v.add(c)
     # tiny programs with enumerated preemptions (see C02): at their end every block was freed and the owner's heap must count no used block
